@@ -649,6 +649,7 @@ func (o *Obl) query() string {
 	for _, t := range tags {
 		b.WriteString("(assert (> " + t + " 0))\n")
 	}
+	b.WriteString(o.D.reflAxioms(tags))
 	// errors created by fmt.Errorf/errors.New: errors.Is/As go through the wrapped error only
 	b.WriteString(o.D.errAxioms())
 	b.WriteString(o.D.litAxioms())
@@ -733,7 +734,7 @@ func (e *Engine) solveAll(obls []*Obl) {
 						j = len(all)
 					}
 					o.Insts = all[i:j]
-					r := runQuery(e.outDir+"/smt", fmt.Sprintf("%s.part%d", o.Name, i/3), o.query(), to, o.Quant, e.seed)
+					r := runQuery(e.smtDir, fmt.Sprintf("%s.part%d", o.Name, i/3), o.query(), to, o.Quant, e.seed)
 					total += r.Ms
 					solver = r.Solver
 					if r.Status != "unsat" {
@@ -759,7 +760,7 @@ func (e *Engine) solveAll(obls []*Obl) {
 					saved[i] = in.Hyp
 					in.Hyp = tAnd(in.Focus...)
 				}
-				r := runQuery(e.outDir+"/smt", o.Name+".focus", o.query(), ft, o.Quant, e.seed)
+				r := runQuery(e.smtDir, o.Name+".focus", o.query(), ft, o.Quant, e.seed)
 				for i, in := range o.Insts {
 					in.Hyp = saved[i]
 				}
@@ -769,12 +770,12 @@ func (e *Engine) solveAll(obls []*Obl) {
 					return
 				}
 			}
-			o.Result = runQuery(e.outDir+"/smt", o.Name, o.query(), to, o.Quant, e.seed)
+			o.Result = runQuery(e.smtDir, o.Name, o.query(), to, o.Quant, e.seed)
 			if o.Cover && o.Result.Status == "unsat" && len(o.PreInsts) > 0 {
 				// inconsistent after the assumption: is the site reachable at all?
 				post := o.Insts
 				o.Insts = o.PreInsts
-				pre := runQuery(e.outDir+"/smt", o.Name+".pre", o.query(), to, o.Quant, e.seed)
+				pre := runQuery(e.smtDir, o.Name+".pre", o.query(), to, o.Quant, e.seed)
 				o.Insts = post
 				if pre.Status == "unsat" {
 					o.Result.Status = "dead"
@@ -783,7 +784,7 @@ func (e *Engine) solveAll(obls []*Obl) {
 			}
 			if o.coverUndecided() {
 				// quantified hypotheses defeat model finding: at least the quantifier-free part must be consistent
-				g := runQuery(e.outDir+"/smt", o.Name+".ground", o.relaxedQuery(), to, false, e.seed)
+				g := runQuery(e.smtDir, o.Name+".ground", o.relaxedQuery(), to, false, e.seed)
 				if g.Status == "sat" {
 					o.Result.Status = "sat"
 					o.Result.Solver = g.Solver + "/ground"
@@ -795,7 +796,7 @@ func (e *Engine) solveAll(obls []*Obl) {
 					if len(o.PreInsts) > 0 {
 						post := o.Insts
 						o.Insts = o.PreInsts
-						pre := runQuery(e.outDir+"/smt", o.Name+".pre", o.query(), to, o.Quant, e.seed)
+						pre := runQuery(e.smtDir, o.Name+".pre", o.query(), to, o.Quant, e.seed)
 						o.Insts = post
 						if pre.Status == "unsat" {
 							o.Result.Status = "dead"
